@@ -67,6 +67,10 @@ let handle kind a =
   | "q" | "qb" | "qw" ->
       let f = bytes_of_hex a.(0) in
       Some (String.concat "," (List.map fmt_qres (index_and_query_many f (parse_regions a.(2)))))
+  | "np" ->
+      let rs = naive_file (bytes_of_hex a.(0)) in
+      if rs = [] then Some "none" else
+      Some (String.concat ";" (List.map (fun (n, b) -> hex_of_bytes n ^ ":" ^ hex_of_bytes b) rs))
   | "qd" ->
       let f = bytes_of_hex a.(0) in
       let cap = nat_of_int (int_of_string a.(1)) in
